@@ -4,6 +4,8 @@
 From Coq Require Import List NArith Bool.
 Import ListNotations.
 From Verif Require Import Val Tokenizer Expand MacroSpec ExpandProofs.
+From Coq Require Import ZArith.
+From Verif Require Import IfScan MacroLang Engine MacroPrint EngineProofs.
 Local Open Scope N_scope.
 
 (* M1: for every body and every argument vector, expandDef yields the body with each #k replaced by the k-th actual
@@ -73,3 +75,51 @@ Example C02_example :
   definition_invoke (render_pattern p) (render_body body) (render_call p args ++ [w])
   = Some [lt; c; x; bgroup_tok; y; egroup_tok; bar; a; b; bar; hash_tok; bar; z; gt; w].
 Proof. vm_compute. repeat split. Qed.
+
+(* ---- program level: the expansion ENGINE (Model/Engine.v: TeX.__iter__, pushTokens, Context lookup and group frames,
+   \def/\gdef, Definition.invoke, \iftrue/\iffalse/\ifnum through processIfContent and the number reader) simulates the
+   reference evaluator of Spec/MacroLang.v ---- *)
+
+(* the if-scanner of the engine works on real tokens; seen through the token classes it is the scanner of Model/IfScan.v,
+   so the C03 theorems (C03_scan_render, C03_process_selects, C03_nested_transparent) speak about it *)
+Theorem C02_engine_if_scan_is_IfScan :
+  forall (w : which) (ts : list tok),
+    process w (map classify ts) = option_map (map classify) (tprocess w ts).
+Proof. exact tprocess_abstracts. Qed.
+
+(* S1 on fragment F1 (Spec/MacroPrint.v: words, groups, parameterless \def and \gdef, calls, \iftrue / \iffalse /
+   \ifnum <literal><rel><literal>\relax with and without \else; any nesting depth, definitions and conditionals inside bodies,
+   dynamic binding, local redefinitions in groups): for EVERY program p of F1 to which TeX's rules (den) give a meaning -
+   in particular every macro it calls is defined when called - and in which no \gdef is executed while an open group holds a
+   local definition of the same name (gdef_safe, checked along the evaluation; there plasTeX deviates from TeX by design),
+   the engine started on the printed tokens of p terminates without raising; the character tokens it yields are exactly the
+   words den computes, in order; all groups are closed; and the global frame of the context holds, for every macro, exactly
+   the (printed) body den's global frame holds, the primitives being untouched. *)
+Theorem C02_engine_simulates_F1 :
+  forall (fuel : nat) (p : list node) (e : env) (out : list Z),
+    in_F1 p = true -> den fuel p = Ok e out -> gdef_safe fuel p = true ->
+    exists (fuel' : nat) (st' : state) (T : list tok),
+      run fuel' (init (print p)) [] = Done st' T /\
+      text_of T = words_text (rev out) /\
+      ups st' = [] /\
+      (forall id, findm (mname id) (bottom st') = option_map mean_of (alookup id (last (frames e) []))) /\
+      (forall k, (forall id, k <> mname id) -> findm k (bottom st') = findm k base_frame).
+Proof. exact engine_simulates_F1. Qed.
+
+(* fuel never changes an answer of the engine *)
+Theorem C02_engine_fuel_monotone :
+  forall (fuel fuel' : nat) (st : state) (acc : list tok) (st' : state) (out : list tok),
+    (fuel <= fuel')%nat -> run fuel st acc = Done st' out -> run fuel' st acc = Done st' out.
+Proof. exact run_mono_done. Qed.
+
+(* non-vacuity:  \def\A{W1 \B}\def\B{W2 }{\def\B{W3 }\A}\A \ifnum 12<3\relax W4 \else W5 \fi {\gdef\C{\iftrue \B\fi}}\C
+   den: W1 W3 W1 W2 W5 W2; the engine yields these words (and the macro instances of \def, {, }, \gdef in between) *)
+Example C02_engine_example :
+  let p := ([NDef false 1 O None [NWord 1; NCall 2 None []]; NDef false 2 O None [NWord 2];
+            NGroup [NDef false 2 O None [NWord 3]; NCall 1 None []]; NCall 1 None [];
+            NCond (TNum (OLit 12) RLt (OLit 3)) [NWord 4] (Some [NWord 5]);
+            NGroup [NDef true 3 O None [NCond TTrue [NCall 2 None []] None]]; NCall 3 None []])%Z in
+  in_F1 p = true /\ gdef_safe 100 p = true /\
+  (exists e, den 100 p = Ok e [2; 5; 2; 1; 3; 1]%Z) /\
+  (exists st T, run 200 (init (print p)) [] = Done st T /\ text_of T = words_text [1; 3; 1; 2; 5; 2]%Z).
+Proof. vm_compute. repeat split; eexists; try eexists; repeat split. Qed.
